@@ -38,6 +38,8 @@ func loopProbe(key, val string, withParent bool) []gen.Node {
 	if withParent {
 		out = append(out, tx("p:"), pr(attr(attr(nm("loop"), "parent"), "index")), tx("/"), pr(attr(attr(nm("loop"), "parent"), "length")))
 	}
+	// everything the scope holds here: the loop defines its variables and "loop", nothing else
+	out = append(out, tx("|n:"), pr(&gen.ECall{Fn: "names"}), tx(";"))
 	out = append(out, tx(")"))
 	return out
 }
